@@ -249,7 +249,7 @@ func c04XPathShapes(w *World, r *Report) {
 // Both places that skip characters are evaluated: the skip arm of LexCommon
 // and the look-ahead helper isWhitespace used while assembling QNames.
 func c04Whitespace(w *World, r *Report) {
-	fd, p, sw := lexCommonSwitch(w)
+	fd, p, sw := lexCommonSkipSwitch(w)
 	var s ISet
 	n := 0
 	for _, a := range switchArms(p, sw) {
